@@ -1652,14 +1652,62 @@ func openEndedImplWindow(sl *ssa.Slice) bool {
 func checkFlatPairing(p *Program, r *Report, cOnly bool) {
 	r.Rule("R02.11", "flat pairings are shape-safe: where a fast path pairs the unrolled storage of two arrays position by position, the destination is a view cut to the source's shape, or a guard compares the two shapes, or the function's general path pairs the same two arrays by one index vector — otherwise rows of a narrower source spill into each other (the general path goes through a view of the destination, the fast path does not)")
 	n := 0
-	unrollRecv := func(v ssa.Value) ssa.Value {
+	var unrollRecvD func(v ssa.Value, depth int) ssa.Value
+	unrollRecvD = func(v ssa.Value, depth int) ssa.Value {
 		for _, o := range origins(v) {
 			if c, ok := o.(*ssa.Call); ok && callName(c.Common()) == "Unroll" && recvOf(c.Common()) != nil {
 				return recvOf(c.Common())
 			}
+			// handed out by a helper of the package through one of its results
+			// (`destSlice, sourceSlice, ok := unrolledPair(dest, source)`): the argument whose storage that result is
+			var hc *ssa.Call
+			ri := 0
+			switch x := o.(type) {
+			case *ssa.Extract:
+				hc, _ = x.Tuple.(*ssa.Call)
+				ri = x.Index
+			case *ssa.Call:
+				hc = x
+			}
+			if hc == nil || depth > 2 {
+				continue
+			}
+			h := hc.Common().StaticCallee()
+			if h == nil || h.Blocks == nil || !InModule(h) || h.Signature.Recv() != nil || len(h.Params) != len(hc.Common().Args) {
+				continue
+			}
+			var owner ssa.Value
+			consistent := true
+			for _, ret := range returnsOf(h) {
+				if ri >= len(ret.Results) {
+					consistent = false
+					break
+				}
+				if isNilConst(origin1OrSelf(ret.Results[ri])) {
+					continue // the "not available" return
+				}
+				rv := unrollRecvD(ret.Results[ri], depth+1)
+				prm, isPrm := origin1OrSelf(rv).(*ssa.Parameter)
+				if rv == nil || !isPrm || prm.Parent() != h {
+					consistent = false
+					break
+				}
+				for i, q := range h.Params {
+					if q == prm {
+						if owner != nil && owner != hc.Common().Args[i] {
+							consistent = false
+						}
+						owner = hc.Common().Args[i]
+					}
+				}
+			}
+			if consistent && owner != nil {
+				return owner
+			}
 		}
 		return nil
 	}
+	unrollRecv := func(v ssa.Value) ssa.Value { return unrollRecvD(v, 0) }
 	// the flat storage a slice value stands for: x.Unroll(), or a window of x.Impl
 	flatOwner := func(v ssa.Value) ssa.Value {
 		if rb := unrollRecv(v); rb != nil {
